@@ -222,7 +222,22 @@ def valid_schema(draw, profile='lang', max_groups=6, max_elements=6, counters=No
   groups.reverse()
 
   # ---- elements
-  names = ['mujoco'] + ['el%d' % i for i in range(1, n_elem)] if gen else ['el%d' % i for i in range(n_elem)]
+  special = {}
+  if gen:
+    names = ['mujoco'] + ['el%d' % i for i in range(1, n_elem)]
+    # special names that the generators document: default (projection context), default_* (not projected), plugin
+    # (dropped in projected contexts), body/worldbody (top-level body is spelled worldbody, worldbody aliases body)
+    if n_elem >= 3 and b(0.45):
+      k = draw(st.integers(1, n_elem - 2))
+      names[k] = 'default'
+      special['default'] = k
+      if b(0.5):
+        names[n_elem - 1] = 'plugin' if b(0.6) else 'default_sub'
+    if b(0.3):
+      names += ['body', 'worldbody']
+      special['body'] = len(names) - 2
+  else:
+    names = ['el%d' % i for i in range(n_elem)]
   elements = []
   for ei, name in enumerate(names):
     members = []
@@ -232,7 +247,7 @@ def valid_schema(draw, profile='lang', max_groups=6, max_elements=6, counters=No
         members.append(dict(kind='use', group=g['name']))
         acc += expanded[g['name']]
     free = [n for n in attr_names if n not in acc]
-    have_id = False
+    have_id = gen and name == 'plugin'
     for n in draw(st.permutations(free))[:draw(st.integers(0, 4))]:
       at = gen_attr(n, False, allow_id=not (gen and have_id))
       have_id = have_id or at['type'] == 'id'
@@ -250,7 +265,8 @@ def valid_schema(draw, profile='lang', max_groups=6, max_elements=6, counters=No
         exp.append(m['name'])
     members += gen_constraints(exp, 2)
     facets = []
-    if b(0.2) and not (gen and name == 'mujoco'):
+    plain = not gen or name.startswith('el')
+    if b(0.2) and plain:
       facets.append(('xml', ('ident', pick(['joint', 'geom', 'tag'])) if b(0.7) else ('str', pick(['joint', 'x-tag']) if not gen else 'joint')))
     if b(0.15):
       facets.append(('field', ('ident', pick(['global', 'quality', 'map']))))
@@ -259,11 +275,27 @@ def valid_schema(draw, profile='lang', max_groups=6, max_elements=6, counters=No
   if gen:
     # tree: element i>0 gets exactly one parent among 0..i-1  (all reachable from mujoco), plus optional self recursion
     for i in range(1, n_elem):
-      parent = elements[draw(st.integers(0, i - 1))]
+      lo_parent = 0
+      parent = elements[draw(st.integers(lo_parent, i - 1))]
+      if parent['name'] in ('plugin',):
+        parent = elements[0]
       parent['members'].append(dict(kind='child', name=elements[i]['name'], card=pick(['?', '!', '*']), doc=docs()))
-    for e in elements[1:]:
-      if b(0.2):
-        e['members'].append(dict(kind='child', name=e['name'], card='R', doc=docs()))
+    for e in elements[1:n_elem]:
+      if e['name'] == 'default' or (e['name'].startswith('el') and b(0.2)):
+        e['members'].insert(draw(st.integers(0, len(e['members']))) if b() else len(e['members']),
+                            dict(kind='child', name=e['name'], card='R', doc=docs()))
+    if 'body' in special:
+      body, world = elements[special['body']], elements[special['body'] + 1]
+      elements[0]['members'].append(dict(kind='child', name='body', card=pick(['!', '?']), doc=docs()))
+      body['members'].append(dict(kind='child', name='body', card='R', doc=docs()))
+      world['members'].append(dict(kind='child', name='body', card='*', doc=docs()))
+      world['facets'].append(('alias', ('ident', 'body')))
+    # alias leaves: validated against another element's row; the table emitter has no row for them
+    for e in elements[1:n_elem]:
+      leaf = not any(m['kind'] == 'child' for m in e['members'])
+      if leaf and e['name'].startswith('el') and b(0.15):
+        e['facets'].append(('alias', ('ident', pick([x['name'] for x in elements[:n_elem]]))))
+    # constraints must stay before/after children in any order: shuffle child positions a little
   else:
     for e in elements:
       for t in draw(st.permutations(elements))[:draw(st.integers(0, 3))]:
@@ -276,7 +308,8 @@ def valid_schema(draw, profile='lang', max_groups=6, max_elements=6, counters=No
           [('element', i) for i in range(len(elements))]
   if not (gen and False):
     order = list(draw(st.permutations(order))) if b(0.6) else order
-  model = dict(enums=enums, groups=groups, elements=elements, order=order, expanded=expanded, depth=depth, profile=profile)
+  model = dict(enums=enums, groups=groups, elements=elements, order=order, expanded=expanded, depth=depth, profile=profile,
+               special=sorted(special))
   return model
 
 
